@@ -2,9 +2,11 @@ package rules
 
 import (
 	"fmt"
+	"go/constant"
 	"go/token"
 	"go/types"
 	"math/big"
+	"os"
 	"sort"
 	"strings"
 
@@ -51,6 +53,202 @@ type c02eval struct {
 	srcKind string // "delegate:<M>", "parse:<fn>", "assert"
 	boolTaken map[ssa.Value]bool
 	notes   []string
+	// pure helpers inlined on this path (one callee path each)
+	frames     map[*ssa.Call]*c02frame
+	byFn       map[*ssa.Function]*c02frame
+	infeasible bool
+}
+
+// c02frame is one path through a pure helper called on the analysed path.
+type c02frame struct {
+	call   *ssa.Call
+	callee *ssa.Function
+	path   []*ssa.BasicBlock
+	ret    []ssa.Value
+}
+
+// c02inlinable: a repo helper whose body is loop-free arithmetic/comparison over its parameters
+// (no stores to shared state, no calls except math predicates and other such helpers), so that one
+// of its paths can be spliced into the caller's path.
+func c02inlinable(p *core.Prog, g *ssa.Function, depth int) bool {
+	if g == nil || !p.InRepo(g) || len(g.Blocks) == 0 || len(g.FreeVars) > 0 || depth > 3 {
+		return false
+	}
+	if g.Signature.Recv() != nil {
+		return false
+	}
+	ok := true
+	core.Instrs(g, func(ins ssa.Instruction) {
+		switch x := ins.(type) {
+		case *ssa.BinOp, *ssa.Convert, *ssa.ChangeType, *ssa.Phi, *ssa.If, *ssa.Jump, *ssa.Return, *ssa.DebugRef, *ssa.Extract:
+		case *ssa.UnOp:
+			if x.Op == token.MUL {
+				switch x.X.(type) {
+				case *ssa.Global, *ssa.Alloc:
+				default:
+					ok = false
+				}
+			}
+		case *ssa.Alloc:
+			if x.Heap {
+				ok = false
+			}
+		case *ssa.Store:
+			if _, isA := x.Addr.(*ssa.Alloc); !isA {
+				ok = false
+			}
+		case *ssa.Call:
+			switch core.StdCallee(&x.Call) {
+			case "math.IsInf", "math.IsNaN", "math.Round":
+			default:
+				if h := core.Callee(&x.Call); h == g || !c02inlinable(p, h, depth+1) {
+					ok = false
+				}
+			}
+		default:
+			ok = false
+		}
+		if core.InLoop(ins.Block()) {
+			ok = false
+		}
+	})
+	return ok
+}
+
+// c02expand enumerates, for the calls of inlinable helpers met along blocks, every combination of one path per helper call.
+func c02expand(p *core.Prog, blocks []*ssa.BasicBlock, depth int) [][]*c02frame {
+	combos := [][]*c02frame{nil}
+	for _, b := range blocks {
+		for _, ins := range b.Instrs {
+			call, ok := ins.(*ssa.Call)
+			if !ok {
+				continue
+			}
+			g := core.Callee(&call.Call)
+			if !c02inlinable(p, g, depth) {
+				continue
+			}
+			paths, okP := c02paths(g, 64)
+			if !okP {
+				continue
+			}
+			var next [][]*c02frame
+			for _, cp := range paths {
+				last := cp[len(cp)-1]
+				ret := core.RetVals(last.Instrs[len(last.Instrs)-1].(*ssa.Return))
+				fr := &c02frame{call: call, callee: g, path: cp, ret: ret}
+				for _, sub := range c02expand(p, cp, depth+1) {
+					for _, c0 := range combos {
+						n := append(append(append([]*c02frame{}, c0...), fr), sub...)
+						next = append(next, n)
+					}
+				}
+			}
+			combos = next
+			if len(combos) > 4096 {
+				return [][]*c02frame{nil}
+			}
+		}
+	}
+	return combos
+}
+
+func (e *c02eval) setFrames(frs []*c02frame) {
+	e.frames, e.byFn = map[*ssa.Call]*c02frame{}, map[*ssa.Function]*c02frame{}
+	dup := map[*ssa.Function]bool{}
+	for _, fr := range frs {
+		if e.byFn[fr.callee] != nil {
+			dup[fr.callee] = true
+		}
+		e.byFn[fr.callee] = fr
+	}
+	for _, fr := range frs {
+		if !dup[fr.callee] {
+			e.frames[fr.call] = fr
+		}
+	}
+	for g := range dup {
+		delete(e.byFn, g)
+	}
+}
+
+// deref maps a value to what it denotes on this path: a parameter of an inlined helper to the actual
+// argument, the result of an inlined call to the value its chosen path returns, a phi to its edge on the path.
+func (e *c02eval) deref(v ssa.Value) ssa.Value {
+	for i := 0; i < 30; i++ {
+		switch x := v.(type) {
+		case *ssa.Parameter:
+			if fr := e.byFn[x.Parent()]; fr != nil {
+				done := false
+				for k, prm := range x.Parent().Params {
+					if prm == x && k < len(fr.call.Call.Args) {
+						v, done = fr.call.Call.Args[k], true
+					}
+				}
+				if done {
+					continue
+				}
+			}
+		case *ssa.Call:
+			if fr := e.frames[x]; fr != nil && len(fr.ret) == 1 {
+				v = fr.ret[0]
+				continue
+			}
+		case *ssa.Extract:
+			if call, ok := x.Tuple.(*ssa.Call); ok {
+				if fr := e.frames[call]; fr != nil && x.Index < len(fr.ret) {
+					v = fr.ret[x.Index]
+					continue
+				}
+			}
+		case *ssa.Phi:
+			if pb := e.predOf(x.Block()); pb != nil {
+				done := false
+				for k, q := range x.Block().Preds {
+					if q == pb {
+						v, done = x.Edges[k], true
+					}
+				}
+				if done {
+					continue
+				}
+			}
+		case *ssa.UnOp:
+			if x.Op == token.MUL {
+				if a, isA := x.X.(*ssa.Alloc); isA && e.byFn[a.Parent()] != nil {
+					if s := core.LoadSource(x); s != nil {
+						v = s
+						continue
+					}
+				}
+			}
+		}
+		return v
+	}
+	return v
+}
+
+// walk applies the branch decisions of a block sequence (and, in program order, those of the helper
+// paths inlined at its calls) to the abstract state.
+func (e *c02eval) walk(blocks []*ssa.BasicBlock, skip map[*ssa.If]types.Type) {
+	for i, b := range blocks {
+		for _, ins := range b.Instrs {
+			if call, ok := ins.(*ssa.Call); ok {
+				if fr := e.frames[call]; fr != nil {
+					e.walk(fr.path, nil)
+				}
+			}
+		}
+		if i+1 >= len(blocks) {
+			break
+		}
+		if iff, ok := b.Instrs[len(b.Instrs)-1].(*ssa.If); ok {
+			if _, isClause := skip[iff]; isClause {
+				continue
+			}
+			e.take(iff.Cond, b.Succs[0] == blocks[i+1])
+		}
+	}
 }
 
 func c02mustRange(t types.Type) core.AV {
@@ -187,15 +385,24 @@ func (e *c02eval) setSrc(x ssa.Value, call *ssa.Call, kind string) {
 }
 
 func (e *c02eval) predOf(b *ssa.BasicBlock) *ssa.BasicBlock {
-	for i, pb := range e.path {
+	path := e.path
+	if b.Parent() != e.f {
+		fr := e.byFn[b.Parent()]
+		if fr == nil {
+			return nil
+		}
+		path = fr.path
+	}
+	for i, pb := range path {
 		if pb == b && i > 0 {
-			return e.path[i-1]
+			return path[i-1]
 		}
 	}
 	return nil
 }
 
 func (e *c02eval) eval(v ssa.Value) core.AV {
+	v = e.deref(v)
 	if r, ok := e.refined[v]; ok {
 		return r
 	}
@@ -287,6 +494,7 @@ func (e *c02eval) eval(v ssa.Value) core.AV {
 
 // refine applies "x op k" (already with polarity) to x.
 func (e *c02eval) bound(x ssa.Value, op token.Token, k *big.Float) {
+	x = e.deref(x)
 	if _, isConst := x.(*ssa.Const); isConst {
 		return
 	}
@@ -337,6 +545,7 @@ func (e *c02eval) bound(x ssa.Value, op token.Token, k *big.Float) {
 }
 
 func (e *c02eval) dropNaN(x ssa.Value) {
+	x = e.deref(x)
 	if _, isConst := x.(*ssa.Const); isConst {
 		return
 	}
@@ -351,7 +560,16 @@ func (e *c02eval) dropNaN(x ssa.Value) {
 }
 
 func (e *c02eval) take(cond ssa.Value, taken bool) {
+	if os.Getenv("FPDEBUG") != "" {
+		fmt.Fprintf(os.Stderr, "take %s (%T) -> %s (%T) taken=%v frames=%d\n", cond, cond, e.deref(cond), e.deref(cond), taken, len(e.frames))
+	}
+	cond = e.deref(cond)
 	switch c := cond.(type) {
+	case *ssa.Const:
+		if c.Value != nil && c.Value.Kind() == constant.Bool && constant.BoolVal(c.Value) != taken {
+			e.infeasible = true // the inlined helper path returns the other truth value
+		}
+		return
 	case *ssa.UnOp:
 		if c.Op == token.NOT {
 			e.take(c.X, !taken)
@@ -360,7 +578,7 @@ func (e *c02eval) take(cond ssa.Value, taken bool) {
 	case *ssa.Call:
 		switch core.StdCallee(&c.Call) {
 		case "math.IsInf":
-			x := c.Call.Args[0]
+			x := e.deref(c.Call.Args[0])
 			a := e.eval(x)
 			if a.Lo == nil {
 				return
@@ -564,147 +782,145 @@ func runC02(c *core.Ctx) {
 				groups[key] = g
 				order = append(order, key)
 			}
-			g.nReturns++
-			e := &c02eval{c: c, f: m, path: path, refined: map[ssa.Value]core.AV{}, caseT: S, boolTaken: map[ssa.Value]bool{}}
-			// walk the path applying branch refinements
-			for i := 0; i+1 < len(path); i++ {
-				if iff, ok := path[i].Instrs[len(path[i].Instrs)-1].(*ssa.If); ok {
-					if _, isClause := clauseOf[iff]; isClause {
-						continue
+			for _, frs := range c02expand(p, path, 0) {
+				g.nReturns++
+				e := &c02eval{c: c, f: m, path: path, refined: map[ssa.Value]core.AV{}, caseT: S, boolTaken: map[ssa.Value]bool{}}
+				e.setFrames(frs)
+				// walk the path (and the inlined helper paths) applying branch refinements
+				e.walk(path, clauseOf)
+				rv := []ssa.Value{e.deref(rv[0]), e.deref(rv[1])}
+				val := e.eval(rv[0])
+				// infeasible path (contradictory guards): skip
+				infeasible := e.infeasible
+				for _, a := range e.refined {
+					if a.Lo != nil && a.Empty() && !a.NaN && !a.InfOnly {
+						infeasible = true
 					}
-					e.take(iff.Cond, path[i].Succs[0] == path[i+1])
 				}
-			}
-			val := e.eval(rv[0])
-			// infeasible path (contradictory guards): skip
-			infeasible := false
-			for _, a := range e.refined {
-				if a.Lo != nil && a.Empty() && !a.NaN && !a.InfOnly {
-					infeasible = true
+				if infeasible {
+					continue
 				}
-			}
-			if infeasible {
-				continue
-			}
-			// error operand
-			errKind := "unknown"
-			switch {
-			case core.IsNilConst(rv[1]):
-				errKind = "nil"
-			case strings.HasPrefix(core.GlobalName(rv[1]), "Err"):
-				errKind = "sentinel"
-			default:
-				if ex, ok := rv[1].(*ssa.Extract); ok && ex.Index == 1 && e.srcCall != nil && ex.Tuple == ssa.Value(e.srcCall) {
-					errKind = "delegated"
-				} else if ex, ok := rv[1].(*ssa.Extract); ok && ex.Index == 1 {
-					// error of some call evaluated on this path: classify its value result to find the source
-					if call, ok := ex.Tuple.(*ssa.Call); ok {
-						for _, r := range *call.Referrers() {
-							if e0, ok := r.(*ssa.Extract); ok && e0.Index == 0 {
-								e.eval(e0)
+				// error operand
+				errKind := "unknown"
+				switch {
+				case core.IsNilConst(rv[1]):
+					errKind = "nil"
+				case strings.HasPrefix(core.GlobalName(rv[1]), "Err"):
+					errKind = "sentinel"
+				default:
+					if ex, ok := rv[1].(*ssa.Extract); ok && ex.Index == 1 && e.srcCall != nil && ex.Tuple == ssa.Value(e.srcCall) {
+						errKind = "delegated"
+					} else if ex, ok := rv[1].(*ssa.Extract); ok && ex.Index == 1 {
+						// error of some call evaluated on this path: classify its value result to find the source
+						if call, ok := ex.Tuple.(*ssa.Call); ok {
+							for _, r := range *call.Referrers() {
+								if e0, ok := r.(*ssa.Extract); ok && e0.Index == 0 {
+									e.eval(e0)
+								}
+							}
+							if e.srcCall == call {
+								errKind = "delegated"
 							}
 						}
-						if e.srcCall == call {
-							errKind = "delegated"
-						}
 					}
 				}
-			}
-			where := p.InstrPos(ret)
-			if errKind == "sentinel" {
-				// R3: failing region on the source
-				if name := core.GlobalName(rv[1]); name != "ErrConversionSizeOverflow" {
-					g.fail = append(g.fail, core.AV{Lo: core.NInf(), Hi: core.PInf()})
-					g.failDesc = append(g.failDesc, fmt.Sprintf("returns %s inside the %s clause at %s", name, S, where))
+				where := p.InstrPos(ret)
+				if errKind == "sentinel" {
+					// R3: failing region on the source
+					if name := core.GlobalName(rv[1]); name != "ErrConversionSizeOverflow" {
+						g.fail = append(g.fail, core.AV{Lo: core.NInf(), Hi: core.PInf()})
+						g.failDesc = append(g.failDesc, fmt.Sprintf("returns %s inside the %s clause at %s", name, S, where))
+						continue
+					}
+					if e.srcRoot == nil {
+						g.fail = append(g.fail, core.AV{Lo: core.NInf(), Hi: core.PInf()})
+						g.failDesc = append(g.failDesc, "fails before reading the source at "+where)
+						continue
+					}
+					reg := e.eval(e.srcRoot)
+					if reg.Lo != nil {
+						g.fail = append(g.fail, reg)
+						g.failDesc = append(g.failDesc, fmt.Sprintf("source ∈ %s rejected at %s", reg, where))
+					}
+					if strings.HasPrefix(e.srcKind, "delegate:") {
+						g.addDelegate(strings.TrimPrefix(e.srcKind, "delegate:") + "/" + c02typeName(S))
+					}
 					continue
 				}
-				if e.srcRoot == nil {
-					g.fail = append(g.fail, core.AV{Lo: core.NInf(), Hi: core.PInf()})
-					g.failDesc = append(g.failDesc, "fails before reading the source at "+where)
-					continue
-				}
-				reg := e.eval(e.srcRoot)
-				if reg.Lo != nil {
-					g.fail = append(g.fail, reg)
-					g.failDesc = append(g.failDesc, fmt.Sprintf("source ∈ %s rejected at %s", reg, where))
-				}
+				// R2
 				if strings.HasPrefix(e.srcKind, "delegate:") {
 					g.addDelegate(strings.TrimPrefix(e.srcKind, "delegate:") + "/" + c02typeName(S))
 				}
-				continue
-			}
-			// R2
-			if strings.HasPrefix(e.srcKind, "delegate:") {
-				g.addDelegate(strings.TrimPrefix(e.srcKind, "delegate:") + "/" + c02typeName(S))
-			}
-			if strings.HasPrefix(e.srcKind, "parse:") && e.srcRoot != nil {
-				pr := e.eval(e.srcRoot)
-				if base, ok := e.refined[e.srcRoot]; ok {
-					_ = base
-				}
-				// the parse range itself (unrefined) bounds what strconv accepts
-				e2 := &c02eval{c: c, f: m, path: path, refined: map[ssa.Value]core.AV{}, caseT: S, boolTaken: map[ssa.Value]bool{}}
-				full := e2.eval(e.srcRoot)
-				if full.Lo != nil {
-					g.parse, g.parseDesc = &full, e.srcKind
-				}
-				_ = pr
-			}
-			isBoolSrc := false
-			if b, ok := S.Underlying().(*types.Basic); ok && b.Kind() == types.Bool {
-				isBoolSrc = true
-			}
-			Tb := T.Underlying().(*types.Basic)
-			switch {
-			case Tb.Kind() == types.Bool && !isBoolSrc && c02typeName(S) != "string":
-				// R4: value must be (src != 0)
-				okB := false
-				if b, ok := core.Resolve(rv[0]).(*ssa.BinOp); ok && b.Op == token.NEQ {
-					a, k := e.eval(b.X), b.Y
-					if _, isK := b.X.(*ssa.Const); isK {
-						a, k = e.eval(b.Y), b.X
+				if strings.HasPrefix(e.srcKind, "parse:") && e.srcRoot != nil {
+					pr := e.eval(e.srcRoot)
+					if base, ok := e.refined[e.srcRoot]; ok {
+						_ = base
 					}
-					ka, _ := k.(*ssa.Const)
-					if a.Src && !a.Approx && ka != nil {
-						if kv, ok := core.ConstAV(ka); ok && kv.Lo != nil && kv.Lo.Sign() == 0 && kv.Hi.Sign() == 0 {
-							okB = true
+					// the parse range itself (unrefined) bounds what strconv accepts
+					e2 := &c02eval{c: c, f: m, path: path, refined: map[ssa.Value]core.AV{}, caseT: S, boolTaken: map[ssa.Value]bool{}}
+					e2.setFrames(frs)
+					full := e2.eval(e.srcRoot)
+					if full.Lo != nil {
+						g.parse, g.parseDesc = &full, e.srcKind
+					}
+					_ = pr
+				}
+				isBoolSrc := false
+				if b, ok := S.Underlying().(*types.Basic); ok && b.Kind() == types.Bool {
+					isBoolSrc = true
+				}
+				Tb := T.Underlying().(*types.Basic)
+				switch {
+				case Tb.Kind() == types.Bool && !isBoolSrc && c02typeName(S) != "string":
+					// R4: value must be (src != 0)
+					okB := false
+					if b, ok := core.Resolve(rv[0]).(*ssa.BinOp); ok && b.Op == token.NEQ {
+						a, k := e.eval(b.X), b.Y
+						if _, isK := b.X.(*ssa.Const); isK {
+							a, k = e.eval(b.Y), b.X
+						}
+						ka, _ := k.(*ssa.Const)
+						if a.Src && !a.Approx && ka != nil {
+							if kv, ok := core.ConstAV(ka); ok && kv.Lo != nil && kv.Lo.Sign() == 0 && kv.Hi.Sign() == 0 {
+								okB = true
+							}
 						}
 					}
-				}
-				if !okB {
-					g.boolProblems = append(g.boolProblems, "returned bool is not (source != 0) at "+where)
-				}
-			case isBoolSrc || (Tb.Kind() == types.Bool):
-				// bool → number: constant 1 on the true edge, 0 on the false edge; bool/string → bool: the source itself
-				if val.Bool && val.Src {
-					break
-				}
-				k, isK := rv[0].(*ssa.Const)
-				if !isK || len(e.boolTaken) != 1 {
-					g.problems = append(g.problems, "bool source: returned value is neither the source nor a constant selected by it at "+where)
-					break
-				}
-				for _, taken := range e.boolTaken {
-					kv, _ := core.ConstAV(k)
-					want := 0
-					if taken {
-						want = 1
+					if !okB {
+						g.boolProblems = append(g.boolProblems, "returned bool is not (source != 0) at "+where)
 					}
-					if kv.Lo == nil || kv.Lo.Cmp(core.BF(float64(want))) != 0 {
-						g.problems = append(g.problems, fmt.Sprintf("bool source: returns %s on the %v edge (true must be 1, false 0) at %s", k.Value, taken, where))
+				case isBoolSrc || (Tb.Kind() == types.Bool):
+					// bool → number: constant 1 on the true edge, 0 on the false edge; bool/string → bool: the source itself
+					if val.Bool && val.Src {
+						break
+					}
+					k, isK := rv[0].(*ssa.Const)
+					if !isK || len(e.boolTaken) != 1 {
+						g.problems = append(g.problems, "bool source: returned value is neither the source nor a constant selected by it at "+where)
+						break
+					}
+					for _, taken := range e.boolTaken {
+						kv, _ := core.ConstAV(k)
+						want := 0
+						if taken {
+							want = 1
+						}
+						if kv.Lo == nil || kv.Lo.Cmp(core.BF(float64(want))) != 0 {
+							g.problems = append(g.problems, fmt.Sprintf("bool source: returns %s on the %v edge (true must be 1, false 0) at %s", k.Value, taken, where))
+						}
+					}
+				default:
+					if !val.Src {
+						why := val.Why
+						if why == "" || why == "f32rep" {
+							why = "returned value is not derived from the source"
+						}
+						g.problems = append(g.problems, fmt.Sprintf("%s at %s (error result may be nil: %s)", why, where, errKind))
+					} else if core.IsInteger(T) && val.Approx {
+						g.problems = append(g.problems, "integer result passed through a rounding float conversion at "+where)
 					}
 				}
-			default:
-				if !val.Src {
-					why := val.Why
-					if why == "" || why == "f32rep" {
-						why = "returned value is not derived from the source"
 					}
-					g.problems = append(g.problems, fmt.Sprintf("%s at %s (error result may be nil: %s)", why, where, errKind))
-				} else if core.IsInteger(T) && val.Approx {
-					g.problems = append(g.problems, "integer result passed through a rounding float conversion at "+where)
-				}
-			}
 		}
 		c.Check(sawDefault && defaultOK, "R1", m.Name()+"/default", p.Pos(m.Pos()), "default clause returns ErrConversionUnsupported", "the default clause (unsupported kinds) does not return ErrConversionUnsupported")
 		if strings.Join(clauseNames, ",") == strings.Join(want, ",") {
